@@ -12,7 +12,7 @@ the objective oracle and the state), so two runs with the same inputs are litera
 
 The *canonical sequence* from a state `ps` is `iterN p f k ps`, `k = 0, 1, 2, …` (`k` passes of the loop body of
 `DoGlobalIteration`, i.e. `k` global iterations one after another, no notifications in between).  "Same state up
-to the event log" is `PState.core` (`m`, `evals`, `nLocal`, `calls`).
+to the event log" is `PState.core` (`m`, `evals`, `nLocal`, `calls`, `refined`).
 -/
 
 set_option linter.unusedSectionVars false
@@ -26,7 +26,7 @@ variable {α : Type} [Add α] [Sub α] [Mul α] [Div α] [Neg α] [LT α] [LE α
 
 /-- **C11, one batch = two batches.**  If `DoGlobalIteration(a)` does not raise, then
 `DoGlobalIteration(a); DoGlobalIteration(b)` and `DoGlobalIteration(a+b)` end with the same method state `m`,
-the same records `evals`, the same `calls`, `nLocal`, and the same exception (if any).  If neither raises, only
+the same records `evals`, the same `calls`, `nLocal`, `refined`, and the same exception (if any).  If neither raises, only
 the event log differs: two `OnEndIteration` notifications with id lists `ids1` (`a` ids), `ids2` (`b` ids)
 against one with `ids1 ++ ids2` (`pre1`, `pre2` are the possible `BeforeMethodStart` of the very first pass). -/
 theorem C11_batch_split (p : Params α) (f : Nat → List α → Option α) (a b : Nat) (ps : PState α)
@@ -35,7 +35,7 @@ theorem C11_batch_split (p : Params α) (f : Nat → List α → Option α) (a b
     let r2 := doGlobalIteration p f b r1.s []
     let r := doGlobalIteration p f (a + b) ps []
     r.s.m = r2.s.m ∧ r.s.evals = r2.s.evals ∧ r.s.calls = r2.s.calls ∧ r.s.nLocal = r2.s.nLocal ∧
-    r.raised = r2.raised ∧
+    r.s.refined = r2.s.refined ∧ r.raised = r2.raised ∧
     (r2.raised = none →
       ∃ ids1 ids2 pre1 pre2, ids1.length = a ∧ ids2.length = b ∧
         (pre1 = [] ∨ pre1 = [Event.beforeStart]) ∧ (pre2 = [] ∨ pre2 = [Event.beforeStart]) ∧
@@ -44,18 +44,19 @@ theorem C11_batch_split (p : Params α) (f : Nat → List α → Option α) (a b
         r.s.log = ps.log ++ pre1 ++ pre2 ++ [Event.endIteration (ids1 ++ ids2)]) := by
   intro r1 r2 r
   obtain ⟨hc, hr, hl⟩ := batch_split (p := p) (f := f) (a := a) (b := b) (ps := ps) h1
-  obtain ⟨c1, c2, c3, c4⟩ := PState.core_eq_iff.1 hc
-  exact ⟨c1, c2, c4, c3, hr, hl⟩
+  obtain ⟨c1, c2, c3, c4, c5⟩ := PState.core_eq_iff.1 hc
+  exact ⟨c1, c2, c4, c3, c5, hr, hl⟩
 
 /-- **C11, any list of batch sizes.**  If the canonical sequence from `ps` makes `Σ k_j` passes without raising,
 then the calls `DoGlobalIteration(k_1); …; DoGlobalIteration(k_n)` end in the state reached by those `Σ k_j` passes
-(same `m`, `evals`, `calls`, `nLocal`): the state depends on the batch sizes only through their sum. -/
+(same `m`, `evals`, `calls`, `nLocal`, `refined`): the state depends on the batch sizes only through their sum. -/
 theorem C11_batches_sum (p : Params α) (f : Nat → List α → Option α) (refine : PState α → Option (LocalResult α))
     (ks : List Nat) (ps ps' : PState α) (ids : List Nat) (h : iterN p f ks.sum ps = .ok (ps', ids)) :
     (runOps p f refine (ks.map Op.iter) ps).m = ps'.m ∧ (runOps p f refine (ks.map Op.iter) ps).evals = ps'.evals ∧
-    (runOps p f refine (ks.map Op.iter) ps).calls = ps'.calls ∧ (runOps p f refine (ks.map Op.iter) ps).nLocal = ps'.nLocal := by
-  obtain ⟨c1, c2, c3, c4⟩ := PState.core_eq_iff.1 (batches_sum (refine := refine) ks h)
-  exact ⟨c1, c2, c4, c3⟩
+    (runOps p f refine (ks.map Op.iter) ps).calls = ps'.calls ∧ (runOps p f refine (ks.map Op.iter) ps).nLocal = ps'.nLocal ∧
+    (runOps p f refine (ks.map Op.iter) ps).refined = ps'.refined := by
+  obtain ⟨c1, c2, c3, c4, c5⟩ := PState.core_eq_iff.1 (batches_sum (refine := refine) ks h)
+  exact ⟨c1, c2, c4, c3, c5⟩
 
 /-- two lists of batch sizes with the same sum end in the same state up to the event log -/
 theorem C11_batches_same_sum (p : Params α) (f : Nat → List α → Option α) (refine : PState α → Option (LocalResult α))
